@@ -55,7 +55,14 @@ func codecs() []codec {
 		{Name: "flate",
 			New: func(s io.Reader) rdr { z, _ := flate.NewReader(s, nil); return flateR{z} },
 			Valid: func(rng *rand.Rand, maxPlain int) gen.Stream {
-				switch rng.Intn(4) {
+				switch rng.Intn(6) {
+				case 4:
+					if maxPlain >= 3000 && rng.Intn(3) == 0 {
+						return gen.SynthBoundary(rng)
+					}
+					return gen.SynthShortEOB(rng)
+				case 5:
+					return gen.SynthShortEOB(rng)
 				case 0:
 					return gen.SynthFlate(rng, 0)
 				case 1:
